@@ -154,6 +154,10 @@ class Part:
             self.skipped[info["skip"]] += 1
         for c in info.get("cls", ()):
             self.classes[c] += 1
+        if info.get("runs"):
+            self.evals += max(0, int(info["runs"]) - 1)  # one case that performed several executions
+        for extra in info.get("extra_nt", ()):
+            self.nt_keys.add(khash(extra))
         nt = info.get("nt")
         if nt is not None:
             k = khash(nt)
